@@ -48,7 +48,7 @@ MANIFEST = {
             "parameter of the model (c17_float_repaired). Tied to the code on every run by vm_compute against real App.Run starts "
             "binding each generated value three ways (with and without a placeholder default, alone and inside a longer literal) "
             "plus literal tags, and against groups of starts in one process whose bindings carry mapper=<tag key> arguments over "
-            "structs with yaml / json tag names that differ from the field names (each binding is predicted from its own tag only); sharing groups (no storage shared between bound values and the configuration, also inside interface-typed positions) and retry groups (one component definition populated again after Configure.Set: Model/Rebind.v, c17_repopulate_*, c17_rebind_after_set)",
+            "structs with yaml / json tag names that differ from the field names (each binding is predicted from its own tag only); sharing groups (no storage shared between bound values and the configuration, also inside interface-typed positions) and retry groups (one component definition populated again after Configure.Set: Model/Rebind.v, c17_repopulate_*, c17_rebind_after_set); embedded struct fields",
     "design_ref": "DESIGN.md 5 C17",
     "note": "trusted: Coq kernel + vm_compute; hand-written models of strconv2 v0.0.2 ParseAny/FormatAny, encoding/json and the "
             "weak-decoding subset of mapstructure v1.5.0 (third-party, modelled as they behave; dw_modelled / text_in_fragment state "
